@@ -172,8 +172,9 @@ def main(tier, seed):
     hs3 = [h for h in R.long_histories(6 if tier == "quick" else 9, pairs=("dtx", "dat", "dax", "atx")) if h not in seen_h]
     items = []
     L = layouts(tier)
+    short = R.histories(5)
     for li, lay in enumerate(L):
-        hh = hs + (hs3 if li < 2 else [])
+        hh = (hs + (hs3 if li < 2 else [])) if li < 5 else short  # generated permutation layouts: four-word histories to depth 5
         for i in range(0, len(hh), 40):
             items.append(dict(layout=lay, histories=hh[i:i + 40], seed=seed))
     res = core.Result()
